@@ -21,6 +21,8 @@ pub enum Policy {
     Chunk(usize),
     /// grants a pseudo-random amount between min(requested, available) and available
     Random(u64),
+    /// the i-th request is offered table[i mod len] octets (clamped into the legal interval)
+    Table([u16; 8], usize),
 }
 
 /// The least forgiving legal source: `slice()` shows only what the last
@@ -59,6 +61,7 @@ impl<'a> Source for FlexSource<'a> {
                 self.rng ^= self.rng << 13; self.rng ^= self.rng >> 7; self.rng ^= self.rng << 17;
                 want + (self.rng as usize) % (avail - want + 1)
             }
+            Policy::Table(t, n) => { if n == 0 { want } else { want.max((t[((self.reqs - 1) as usize) % n] as usize).min(avail)) } }
         };
         // data granted earlier stays available
         self.granted = self.granted.max(g);
